@@ -17,6 +17,11 @@ Sub-checks (violation keys):
   C20:sum                 sharp hyper-parameters: L(with prior_list) - L(without) == sum_k -(x_k-mu_k)^2/(2 s_k^2) over the listed names that
                           are realised (x from the closed formulas above; duplicates counted twice)                       (rel 1e-10)
   C20:term:<name>         the same for a one-entry prior list [name, mu, s] (names the failing parameter)
+  C20:term_at_zero:<name> the same where the realised value is exactly 0 (isotropic a_ani=0, GAUSSIAN_TAN_RAD at a=1 -> 1-a^2=0, GOM beta_inf=0,
+                          log_m2l=0, gamma_in=0, gamma_ppn=0, a lens' own / the global gamma_pl=0): presence in the realised dict is what counts,
+                          not truthiness.  About a quarter of the single / sample cases put one or more realised parameters exactly at 0 (with
+                          zero width for that parameter, any widths elsewhere) and attach a prior with mean != 0 to one of them; the sharp,
+                          scattered (C20:scatter_inside_average) and sample (C20:sample_term / C20:sample_total) checks all see these points.
   C20:absent:<name>       a one-entry prior on a name the lens does not realise leaves the value bit-identical
   C20:empty               prior_list None / [] gives bit-identical values
   C20:realised:<name>     the value returned by the wrapped draw functions equals the closed formula (sharp case)
@@ -49,6 +54,7 @@ ABSENT = ["nonexistent", "lambda_ifu", "alpha_lambda", "beta_lambda", "kappa_ext
           "a_ani_sigma", "mu_sne", "gamma_pl_0", "Lambda_mst", "sigma_v_sys_error"]
 AXES = dict(a_ani=[0.3, 1.0, 2.0, 3.5, 5.0], beta_inf=[0.0, 0.4, 0.7, 1.0], gamma_in=[0.5, 0.9, 1.2, 1.5], log_m2l=[-0.2, 0.2, 0.6],
             gamma_pl=[1.6, 1.9, 2.1, 2.4])
+A_ANI_WITH_ZERO = [-0.5, 0.0, 0.3, 1.0, 2.0, 3.5, 5.0]      # hierArc's own 'const' axis is linspace(-0.49, 1, ...): beta = 0 is an interior point
 SCALINGS = [[], ["a_ani"], ["a_ani", "beta_inf"], ["a_ani", "gamma_pl"], ["gamma_pl"], ["gamma_in", "log_m2l"], ["a_ani", "gamma_in", "log_m2l"],
             ["gamma_in"], ["a_ani", "beta_inf", "gamma_pl"]]
 ARRAY_KEYS = ["sigma_v_measurement", "j_model", "error_cov_measurement", "error_cov_j_sqrt", "amp_measured", "cov_amp_measured",
@@ -122,8 +128,10 @@ def gen_lens(rng, idx, sample_mode=False):
     if gp in ("global", "both"): kw.update(gamma_pl_global_sampling=True, gamma_pl_global_dist=str(rng.choice(["NONE", "GAUSSIAN"])))
     if S:
         nk = len(kw["j_model"]) if "j_model" in kw else 1
-        shape = tuple(len(AXES[p]) for p in S)
-        kw.update(kin_scaling_param_list=S, j_kin_scaling_param_axes=[np.array(AXES[p]) for p in S],
+        axes = dict(AXES)
+        if "a_ani" in S and rng.random() < .4: axes["a_ani"] = A_ANI_WITH_ZERO
+        shape = tuple(len(axes[p]) for p in S)
+        kw.update(kin_scaling_param_list=S, j_kin_scaling_param_axes=[np.array(axes[p]) for p in S],
                   j_kin_scaling_grid_list=[rng.uniform(.75, 1.35, shape) for _ in range(nk)])
     kw["lambda_mst_distribution"] = str(rng.choice(["NONE", "GAUSSIAN"]))
     if rng.random() < .4: kw["mst_ifu"] = True
@@ -156,9 +164,51 @@ def fix_point_for(lens, pt):
     """GAUSSIAN_TAN_RAD realises 1 - a^2 and GAUSSIAN_SCALED multiplies the width by a: nothing to fix (a_ani is unbounded there); but
     a lens WITHOUT anisotropy sampling and with a_ani in no grid simply passes a_ani through.  Only guarantee bounds of bounded axes."""
     kk = pt["kwargs_kin"]
-    if "a_ani" in lens.get("kin_scaling_param_list", []) and not (0.35 <= kk["a_ani"] <= 4.5):
-        kk["a_ani"] = 1.5
+    S = list(lens.get("kin_scaling_param_list", []))
+    if "a_ani" in S:
+        ax = lens["j_kin_scaling_param_axes"][S.index("a_ani")]
+        if not (float(ax[0]) + 0.05 <= kk["a_ani"] <= float(ax[-1]) - 0.5):
+            kk["a_ani"] = 1.5
     return pt
+
+
+def inject_zeros(rng, lenses, pt, single):
+    """put one or more realised parameters EXACTLY at 0 (legitimate values: isotropic orbits, beta_inf = 0, M/L = 1, gamma_ppn = 0, ...), with zero
+    width for that parameter so that the realised value is exactly 0 in every draw.  Only names whose 0 is admissible for every lens in `lenses`
+    (inside the interpolation axis when the parameter is interpolated).  -> list of the names set to zero"""
+    kl, kk = pt["kwargs_lens"], pt["kwargs_kin"]
+
+    def zero_ok(l, nm):
+        S = list(l.get("kin_scaling_param_list", []))
+        if nm not in S: return True
+        ax = l["j_kin_scaling_param_axes"][S.index(nm)]
+        return float(ax[0]) <= 0.0 <= float(ax[-1])
+    tan = [l.get("anisotropy_distribution") == "GAUSSIAN_TAN_RAD" for l in lenses]
+    cands = ["gamma_ppn"]
+    if all(zero_ok(l, "a_ani") for l in lenses) and (all(tan) or not any(tan)): cands.append("a_ani")
+    for nm in ("beta_inf", "log_m2l", "gamma_in"):
+        if all(zero_ok(l, nm) for l in lenses): cands.append(nm)
+    l0 = lenses[0]
+    if single and l0["likelihood_type"] != "DSPL" and "gamma_pl" not in l0.get("kin_scaling_param_list", []) and \
+            (l0.get("gamma_pl_index") is not None or l0.get("gamma_pl_global_sampling")):
+        cands.append("gamma_pl")        # the slope only enters through the DSPL likelihood or the interpolation
+    chosen = [c for c in cands if rng.random() < .45] or [str(rng.choice(cands))]
+    for nm in chosen:
+        if nm == "gamma_ppn": kl["gamma_ppn"] = 0.0
+        elif nm == "a_ani": kk.update(a_ani=(1.0 if all(tan) else 0.0), a_ani_sigma=0.0)       # GAUSSIAN_TAN_RAD realises 1 - a^2
+        elif nm == "beta_inf": kk.update(beta_inf=0.0, beta_inf_sigma=0.0)
+        elif nm == "log_m2l": kl.update(log_m2l=0.0, log_m2l_sigma=0.0, alpha_log_m2l=0.0)
+        elif nm == "gamma_in": kl.update(gamma_in=0.0, gamma_in_sigma=0.0, alpha_gamma_in=0.0)
+        elif nm == "gamma_pl":
+            if l0.get("gamma_pl_index") is not None: kl["gamma_pl_list"][int(l0["gamma_pl_index"])] = 0.0
+            else: kl.update(gamma_pl_mean=0.0, gamma_pl_sigma=0.0)
+    return chosen
+
+
+def zero_prior(rng, names):
+    """a prior with a mean well away from 0 on one of `names`"""
+    nm = str(names[int(rng.integers(len(names)))])
+    return [nm, float(rng.choice([-1., 1.]) * rng.uniform(.1, .6)), float(10 ** rng.uniform(-1.5, 0.))]
 
 
 def gen_priors(rng, realised_names):
@@ -335,7 +385,7 @@ def run_single(rec, inp):
                 rec.violation("C20:raises", "lens_log_likelihood raised with a one-entry prior", inp, dict(prior=p, err=repr(e))); continue
             if nm in ref:
                 e1 = -(float(ref[nm]) - p[1]) ** 2 / (2 * p[2] ** 2)
-                rec.check(abs((vp - v0) - e1) <= tol(v0, e1), "C20:term:" + nm, "one-entry prior: shift != -(x-mu)^2/(2 sigma^2) at the realised x", inp,
+                rec.check(abs((vp - v0) - e1) <= tol(v0, e1), ("C20:term_at_zero:" if float(ref[nm]) == 0.0 else "C20:term:") + nm, "one-entry prior: shift != -(x-mu)^2/(2 sigma^2) at the realised x", inp,
                           dict(prior=p, x=ref[nm], diff=vp - v0), e1)
             else:
                 rec.check(vp == v0, "C20:absent:" + nm, "a prior on a parameter the lens does not realise changes its likelihood", inp,
@@ -557,11 +607,17 @@ def gen_single(rng):
     sharp = bool(rng.random() < .55)
     lens = gen_lens(rng, 0)
     pt = fix_point_for(lens, gen_point(rng, sharp))
-    ref_names = sorted(realised_sharp(lens, pt))
+    zeros = inject_zeros(rng, [lens], pt, True) if rng.random() < .25 else []
+    ref = realised_sharp(lens, pt)
+    ref_names = sorted(ref)
     priors = gen_priors(rng, ref_names)
     extra = [str(rng.choice(ABSENT))] + ([str(rng.choice(REALISABLE))] if rng.random() < .5 else [])
+    zn = [n for n in zeros if n in ref]
+    if zn:
+        priors.insert(int(rng.integers(0, len(priors) + 1)), zero_prior(rng, zn))
+        extra += zn
     return dict(stream="single", lens=jsonable(lens), point=pt, priors=priors, sharp=sharp, np_seed=int(rng.integers(0, 2 ** 31 - 1)),
-                extra_names=extra, priors_as=str(rng.choice(["list", "tuple"], p=[.8, .2])))
+                extra_names=extra, priors_as=str(rng.choice(["list", "tuple"], p=[.8, .2])), zeros=zeros)
 
 
 def gen_sample(rng):
@@ -570,9 +626,13 @@ def gen_sample(rng):
     lenses = [gen_lens(rng, j, sample_mode=True) for j in range(k)]
     pt = gen_point(rng, sharp)
     for l in lenses: fix_point_for(l, pt)
+    zeros = inject_zeros(rng, lenses, pt, False) if rng.random() < .25 else []
     priors = [gen_priors(rng, sorted(realised_sharp(l, pt, gamma_pl_index=0))) for l in lenses]
+    for l, pl in zip(lenses, priors):
+        zn = [n for n in zeros if n in realised_sharp(l, pt, gamma_pl_index=0)]
+        if zn and rng.random() < .7: pl.append(zero_prior(rng, zn))
     return dict(stream="sample", lenses=jsonable(lenses), point=pt, priors=priors, sharp=sharp, who=int(rng.integers(0, k)),
-                normalized=bool(rng.random() < .5), np_seed=int(rng.integers(0, 2 ** 31 - 1)))
+                normalized=bool(rng.random() < .5), np_seed=int(rng.integers(0, 2 ** 31 - 1)), zeros=zeros)
 
 
 def run_case(rec, inp):
@@ -606,6 +666,7 @@ def main():
                 descr = dict(i=i, t=l["likelihood_type"], S=l.get("kin_scaling_param_list"), priors=inp["priors"], sharp=inp["sharp"], seed=inp["np_seed"])
                 kind = "single|%s|%s" % (l["likelihood_type"], "sharp" if inp["sharp"] else "scatter")
                 for p in inp["priors"]: rec.tally("prior_name:" + p[0])
+                for z in inp["zeros"]: rec.tally("realised_exactly_zero:" + z)
             elif i < n_single + n_sample:
                 inp = gen_sample(rng)
                 descr = dict(i=i, t=[l["likelihood_type"] for l in inp["lenses"]], priors=inp["priors"], sharp=inp["sharp"], who=inp["who"], seed=inp["np_seed"])
